@@ -99,8 +99,8 @@ PROPS['C03'] = dict(
 from contracts import pelcore
 from contracts import headers as _h, srcsec as _s
 PROPS['C01'] = dict(
-    units=list(pelcore.UNITS) + [_h.EH, _h.MT, _h.LP, _s.SrcToJSON, _s.CalloutU],
-    extra=[pelcore.build_output_enum],
+    units=list(pelcore.UNITS) + [_h.EH, _h.MT, _h.LP, _s.SrcToJSON, _s.CalloutU, pelcore.BuildOutputAny],
+    extra=[pelcore.build_output_enum, pelcore.bo_lemmas],
     level='proof',
     min_obligations=100,
     assumptions=[],
@@ -193,3 +193,5 @@ PROPS['C11']['units'] = PROPS['C11']['units'] + [cli.MainJsonN]
 PROPS['C12']['units'] = PROPS['C12']['units'] + [cli.MainJsonN]
 # C08: each --list entry's fields equal the corresponding fields of the full decode (real body of parsePELSummary)
 PROPS['C08']['units'] = PROPS['C08']['units'] + list(pelcore.C08_UNITS)
+# C09 anchors the top-level-only walks too: getFileList and main's --json loop (sub-directories contribute nothing)
+PROPS['C09']['units'] = PROPS['C09']['units'] + [cli.GetFileListN, cli.GetFileList, cli.MainJsonN]
